@@ -143,6 +143,9 @@ let show_str = function
 let do_trim hex = show_str (uc_trim (bytes_of_hex hex))
 let do_cutstore size hex = show_str (cut_store (nat_of_int size) (bytes_of_hex hex))
 
+(* repl <rep hex> <line hex> <o0> ... <o31>: ex.c replace() on the group offsets (CapDefs4.v); the bytes it appends *)
+let do_repl rep ln offs = show_str (replace (bytes_of_hex rep) (bytes_of_hex ln) (List.map (fun w -> z_of_int (int_of_string w)) offs))
+
 (* ai <k> ops: t = ^T, d = ^D, l<sp>:<pref empty 0/1>:<xai 0/1> = a finished line; answers strlen(ai) after the
    initial fill and after every operation *)
 let do_ai k ops =
@@ -193,4 +196,5 @@ let () =
     | "ai" :: k :: ops -> do_ai (int_of_string k) ops
     | ["trim"; h] -> do_trim h
     | ["cutstore"; n; h] -> do_cutstore (int_of_string n) h
+    | "repl" :: rep :: ln :: offs -> do_repl rep ln offs
     | _ -> pr "?\n")
